@@ -154,9 +154,8 @@ pub fn profile_for(id: &str, rng: &mut Rng) -> Profile {
             // and - in autocommit, on tables without a unique index - updated rows)
             p.max_tables = rng.range(1, 2) as u32;
             p.w_ddl = *rng.pick(&[0, 0, 4]);
-            // the whole-database page audit runs at every quiescent CHECK (what VACUUM empties must
-            // reach the free list); a CREATE TABLE rolled back in a session leaks its root (L1)
-            p.guards.push("create_table_inside_session".into());
+            // the whole-database page audit runs at every quiescent CHECK: what VACUUM empties must
+            // reach the free list, and so must the pages of relations whose creator aborted (L1)
             if rng.chance(40) {
                 // wide variant: several leaves of uniform ~0.5 KiB rows, so that VACUUM empties and merges pages
                 // (one table, no UPDATE: cells of this size must stay uniform, open findings D31e / D31b)
@@ -193,8 +192,10 @@ pub fn profile_for(id: &str, rng: &mut Rng) -> Profile {
         "C11" => {
             // DDL and DML with rollbacks, drops, reopen and checkpoints; the page audit runs at every
             // quiescent CHECK
-            p.guards.push("create_table_inside_session".into()); // L1
             p.w_ddl = 14;
+            // a relation whose creator aborted is garbage until VACUUM releases its pages (L1, repaired)
+            p.w_vacuum = *rng.pick(&[0, 4]);
+            p.zombie_sessions = rng.chance(50);
             p.w_check = 14;
             p.w_reopen = *rng.pick(&[0, 4]);
             p.w_flush = *rng.pick(&[0, 4]);
